@@ -40,19 +40,18 @@ Fixpoint rle_aux (st len : int) (l : list int) : list (int * int) :=
   end.
 Definition rle (l : list int) : list (int * int) := match l with [] => [] | x :: r => rle_aux x 1 r end.
 
-(* (stdout?, stderr?, output?, script?), block size, per attempt (stdout bytes, stderr bytes), lates *)
-Definition lcase := (bool * bool * bool * bool * nat * list (N * N) * list nat)%type.
+(* (stdout?, stderr?, output?, script?), block size, per attempt (stdout bytes, stderr bytes) *)
+Definition lcase := (bool * bool * bool * bool * nat * list (N * N))%type.
 
 Definition tag (k kind : int) (l : list (int * int)) : list (int * int * int * int) := map (fun p => (k, kind, fst p, snd p)) l.
 
 (* rows (case, kind, a, b): kind 0/1/2 = a run [a, a+b) of codes in the log / stdout: / stderr: file;
-   3 = flags (a = blocked); 4 = run in the captured output *)
+   4 = run in the captured output *)
 Definition eval_case (k : int) (c : lcase) : list (int * int * int * int) :=
-  let '(so, se, ou, sc, blk, sizes, lates) := c in
+  let '(so, se, ou, sc, blk, sizes) := c in
   let cf := {| c_stdout := so; c_stderr := se; c_output := ou; c_script := sc |} in
-  let s := run int cf (attempts 0 blk sizes) lates in
+  let s := run int cf (attempts 0 blk sizes) in
   tag k 0 (rle (dsk int s (logpath int s))) ++ tag k 1 (rle (dsk int s P_STDOUT)) ++ tag k 2 (rle (dsk int s P_STDERR))
-  ++ [(k, 3, if blocked int s then 1 else 0, 0)]
   ++ tag k 4 (match outvar int s with Some v => rle v | None => [] end).
 
 Fixpoint eval_from (k : int) (cs : list lcase) : list (int * int * int * int) :=
